@@ -508,7 +508,10 @@ func (e *Engine) vcall(fn *ssa.Function, s *St, in *ssa.Call, ip int, short stri
 			}
 			return set(ListV{e.alloc(s.State, ArrObj{items})})
 		}
-		idx := e.index(c)
+		idx := -3
+		if c != "gas" {
+			idx = e.index(c)
+		}
 		var evs []*notifNode
 		for n := s.notifs; n != nil; n = n.prev {
 			if n.n.contract == idx && n.n.name == name {
@@ -581,7 +584,10 @@ func (e *Engine) vcall(fn *ssa.Function, s *St, in *ssa.Call, ip int, short stri
 		parts := []part{{tTrue, nil}}
 		for i := len(evs) - 1; i >= 0; i-- {
 			n := evs[i]
-			nm := e.names[n.n.contract] + "." + n.n.name
+			nm := "gas." + n.n.name
+			if n.n.contract >= 0 {
+				nm = e.names[n.n.contract] + "." + n.n.name
+			}
 			var np []part
 			for _, p := range parts {
 				g := n.g()
@@ -735,6 +741,9 @@ func (e *Engine) invoke(s *St, in *ssa.Call, ip int, kind string, contract, meth
 		ok, v := e.world.read(contract, method, goArgs)
 		s.env[in] = TupleV{[]Value{BoolV{B(ok)}, e.allocLits(s.State, v)}}
 		return nil, nil, true
+	}
+	if contract == "gas" { // the native GAS token (stub): transfer and balanceOf
+		return e.invokeGas(s, in, ip, kind, method, margs, pending)
 	}
 	e.cur = e.index(contract)
 	e.callers = []int{-1}
@@ -958,4 +967,40 @@ func valEq(a, b Value) *T {
 		}
 	}
 	return tFalse
+}
+
+
+// invokeGas: a transaction (or read) on the native GAS contract itself.
+func (e *Engine) invokeGas(s *St, in *ssa.Call, ip int, kind, method string, margs []Value, pending []signer) ([]succ, []Out, bool) {
+	if method == "balanceOf" {
+		h := cStr(margs[0])
+		s.env[in] = TupleV{[]Value{BoolV{tTrue}, IntV{gasOf(s.State, h)}}}
+		return nil, nil, true
+	}
+	if method != "transfer" || kind != "vInvoke" || len(margs) != 4 {
+		panic("GAS stub: only transfer/4 and balanceOf are modelled")
+	}
+	e.cur = -1
+	e.callers = []int{-1}
+	e.signers = append([]signer{{tTrue, constBytes(string(e.world.payer.ScriptHash().BytesBE())).b}}, pending...)
+	e.txTime = Add(s.lastTime, I(1))
+	store0, gas0 := s.store, cloneGas(s.gas)
+	s.State.lastTime = e.txTime
+	s.State.notifs = nil
+	s.State.height = Add(s.height, I(1))
+	s.State.txStore0, s.State.txGas0 = store0, gas0
+	e.roDepth = 0
+	next, fin := e.gasTransfer(s, in, ip, margs[0], margs[1], margs[2], margs[3], false, func(ok bool) Value {
+		return TupleV{[]Value{BoolV{tTrue}, BoolV{B(ok)}}}
+	})
+	e.stats.paths += len(next) + len(fin)
+	// a fault inside the call-back reverts the whole transaction
+	for _, o := range fin {
+		o.State.store, o.State.notifs = store0, nil
+		o.State.gas = cloneGas(gas0)
+		st := &St{State: o.State, blk: s.blk, ip: ip + 1, env: cloneEnv(s.env)}
+		st.env[in] = TupleV{[]Value{BoolV{tFalse}, NullV{}}}
+		next = append(next, succ{st, nil})
+	}
+	return next, nil, false
 }
